@@ -45,18 +45,20 @@ def run(tier, seed, replay=None):
             rk = lambda: [1] + [4] * (d - 2) + [rng.choice([1, 2]), 1]
         sd = rng.randrange(1 << 30); torch.manual_seed(sd)
         desc = {"routine": routine, "d": d, "N": N, "M": M, "eps": eps, "decay": decay, "dtype": str(dtype), "torch_seed": sd, "interior_singleton_mode": singleton}
+        rk_kw = {"rmax": np.int64(512)} if i % 5 == 2 else ({"rmax": 512} if i % 5 == 3 else {})       # the documented rank cap, as a python or a numpy integer (it does not bind)
+        if rk_kw: desc["rmax"] = type(rk_kw["rmax"]).__name__; dist["rmax given as " + desc["rmax"]] = dist.get("rmax given as " + desc["rmax"], 0) + 1
         if routine in ("fast_matvec", "amen_mv"):
             A = solverkit.rand_ttm_float(rng, M, N, rk(), dtype, decay, cplx); x = solverkit.rand_tt_float(rng, N, rk(), dtype, decay, cplx)
             guess = solverkit.rand_tt_float(rng, M, rk(), dtype, False, cplx) if rng.random() < 0.35 else None
             ops = {"A": A, "x": x}
             exact = A @ x
-            call = (lambda: A.fast_matvec(x, eps=eps, initial=guess, nswp=40, use_cpp=False)) if routine == "fast_matvec" else (lambda: torchtt.amen_mv(A, x, eps=eps, x0=guess, nswp=40))
+            call = (lambda: A.fast_matvec(x, eps=eps, initial=guess, nswp=40, use_cpp=False)) if routine == "fast_matvec" else (lambda: torchtt.amen_mv(A, x, eps=eps, x0=guess, nswp=40, **rk_kw))
             want_N, want_M = M, None
         elif routine == "dmrg_hadamard":
             x = solverkit.rand_tt_float(rng, N, rk(), dtype, decay, cplx); y = solverkit.rand_tt_float(rng, N, rk(), dtype, decay, cplx)
             guess = solverkit.rand_tt_float(rng, N, rk(), dtype, False, cplx) if rng.random() < 0.35 else None
             ops = {"x": x, "y": y}; exact = x * y
-            call = lambda: torchtt.dmrg_hadamard(x, y, guess, eps=eps, nswp=40)
+            call = lambda: torchtt.dmrg_hadamard(x, y, guess, eps=eps, nswp=40, **rk_kw)
             want_N, want_M = N, None
         else:
             K = [rng.choice([1, 2, 3]) for _ in range(d)]
@@ -64,7 +66,7 @@ def run(tier, seed, replay=None):
             A = solverkit.rand_ttm_float(rng, M, K, solverkit.ranks(rng, d, 3), dtype, decay); B = solverkit.rand_ttm_float(rng, K, N, solverkit.ranks(rng, d, 3), dtype, decay)
             guess = solverkit.rand_ttm_float(rng, M, N, solverkit.ranks(rng, d, 2), dtype) if rng.random() < 0.35 else None
             ops = {"A": A, "B": B}; exact = A @ B
-            call = lambda: torchtt.amen_mm(A, B, eps=eps, X0=guess, nswp=40)
+            call = lambda: torchtt.amen_mm(A, B, eps=eps, X0=guess, nswp=40, **rk_kw)
             want_N, want_M = N, M
         nulldir = False
         if i in (14, 15, 16, 17) and not uneven:
